@@ -1,24 +1,52 @@
 #!/usr/bin/env python3
-"""Prints the markdown table of DESIGN.md section 8 from /verif/seeded/*/meta.json."""
-import json,glob,os,re
-rows=[]
+"""Prints the tables of DESIGN.md section 8 from /verif/seeded/*/meta.json.
+   mkseedtable.py compact  -> seed | breaks | checks that fire | own   (for DESIGN.md)
+   mkseedtable.py full     -> the same with the one-line description   (for seeded/TABLE.md)
+   mkseedtable.py refactors-> the refactor probe table"""
+import json,glob,os,sys
+mode=sys.argv[1] if len(sys.argv)>1 else 'compact'
 desc=json.load(open('/verif/seeded/descriptions.json'))
-for d in sorted(glob.glob('/verif/seeded/*/')):
+if mode=='refactors':
+    print("| refactor | suite with the change | quick: checks that raised an alarm | thorough: checks that raised an alarm |")
+    print("|---|---|---|---|")
+    for d in sorted(glob.glob('/verif/seeded/refactors/*/')):
+        n=os.path.basename(d.rstrip('/'))
+        q=json.load(open(d+'meta_quick.json')) if os.path.exists(d+'meta_quick.json') else {}
+        t=json.load(open(d+'meta_thorough.json')) if os.path.exists(d+'meta_thorough.json') else {}
+        f=lambda m: (' '.join(m.get('checks_that_raised_an_alarm',[])) or 'none') if m else 'not run'
+        print(f"| {n} | {q.get('suite_with_change','?')} | {f(q)} | {f(t)} |")
+    sys.exit(0)
+rows=[]; uncaught=[]; own_no=[]
+letters='abcdefghijkl'
+per_round={}
+for d in sorted(glob.glob('/verif/seeded/C*/')):
     name=os.path.basename(d.rstrip('/'))
     try: m=json.load(open(d+'meta.json'))
     except Exception: continue
-    what=''
-    p=d+'agent_meta.md'
-    if os.path.exists(p):
-        t=open(p).read()
-        # first non-heading paragraph
-        for para in re.split(r'\n\s*\n',t):
-            para=para.strip()
-            if para and not para.startswith('#'):
-                what=' '.join(para.split())[:230]; break
-    if name in desc: what=desc[name]
-    fired=' '.join(m.get('quick_checks_that_fire',[])) or '-'
-    rows.append(f"| {name} | {m['property_broken']} | {what} | {fired} | {'yes' if m.get('target_detected') else 'NO'} |")
-print("| seed | breaks | change (from the author's notes) | quick checks that fire | own check fires |")
-print("|---|---|---|---|---|")
+    fired=[c for c in m.get('quick_checks_that_fire',[])]
+    own='yes' if m.get('target_detected') else 'NO'
+    r=letters.index(name[-1])+1
+    pr=per_round.setdefault(r,[0,0,0]); pr[0]+=1; pr[1]+= 1 if fired else 0; pr[2]+= 1 if own=='yes' else 0
+    if not fired: uncaught.append(name)
+    elif own=='NO': own_no.append(f"{name} ({' '.join(fired)})")
+    what=desc.get(name,'')
+    if mode=='full':
+        rows.append(f"| {name} | {m['property_broken']} | {what} | {' '.join(fired) or '-'} | {own} |")
+    else:
+        rows.append(f"| {name} | {' '.join(fired) or '-'} | {own} |")
+if mode=='full':
+    print("| seed | breaks | change | quick checks that fire | own check fires |")
+    print("|---|---|---|---|---|")
+else:
+    print("| seed (property-round) | quick checks that fire | own check fires |")
+    print("|---|---|---|")
 print('\n'.join(rows))
+print()
+print("| round | seeds | caught by some check | caught by the property's own check |")
+print("|---|---|---|---|")
+for r in sorted(per_round):
+    a,b,c=per_round[r]; print(f"| {r} | {a} | {b} | {c} |")
+print()
+print("**Not caught by any quick check:** "+(', '.join(uncaught) or 'none')+".")
+print()
+print("**Caught, but not by the property's own check** (the checks that do fire in brackets): "+('; '.join(own_no) or 'none')+".")
